@@ -87,3 +87,25 @@ def byval_ledger_cases(desc):
                 "let r = std::panic::catch_unwind(inner); let ending = match &r { Ok(Some(_)) => \"value\", Ok(None) => \"left\", Err(_) => \"panic\" }; "
                 "drop(r); format!(\"{};{:?}\", ending, counts())" % (n, pre, n, call))
         yield body, "%s;%s" % (desc["ending"], str(exp)), dict(desc, mac="array::%s (drop ledger)" % mac)
+
+
+def stateful_closure_cases():
+    """C11: closures with state (a running counter) - the macros must call the closure once per element, in index
+    order, exactly like <[T; N]>::map / core::array::from_fn with the same closure."""
+    out = []
+    for n in range(0, 5):
+        arr = "[%s]" % ", ".join("%du32" % (10 * (i + 1)) for i in range(n))
+        for mac, kcall, scall in (
+            ("map!", "konst::array::map!(arr, |x| { c += 1; x * 100 + c })", "arr.map(|x| { c += 1; x * 100 + c })"),
+            ("map_!", "konst::array::map_!(arr, |x| { c += 1; x * 100 + c })", "arr.map(|x| { c += 1; x * 100 + c })"),
+            ("from_fn!", "konst::array::from_fn!(|i| { c += 1; i as u32 * 100 + c })", "core::array::from_fn(|i| { c += 1; i as u32 * 100 + c })"),
+            ("from_fn_!", "konst::array::from_fn_!(|i| { c += 1; i as u32 * 100 + c })", "core::array::from_fn(|i| { c += 1; i as u32 * 100 + c })"),
+        ):
+            body = ("let arr: [u32; %d] = %s; let mut c = 0u32; let k: [u32; %d] = %s; let kc = c; let mut c = 0u32; let s: [u32; %d] = %s; "
+                    "format!(\"{:?} {} {}\", k, kc, k == s && kc == c)" % (n, arr, n, kcall, n, scall))
+            if "from_fn" in mac:
+                exp = "%s %d true" % (str([i * 100 + i + 1 for i in range(n)]), n)
+            else:
+                exp = "%s %d true" % (str([10 * (i + 1) * 100 + i + 1 for i in range(n)]), n)
+            out.append((body, exp, {"m": "ArrayBuild", "mac": "array::%s (stateful closure)" % mac, "n": n}))
+    return out
